@@ -41,6 +41,9 @@ def act_text(act, gname):
         return "crate::rec_%s::f(%d, &[%s])" % (gname, act[1], ", ".join(arg(a) for a in act[2]))
     if act[0] == "userall":
         return "crate::rec_%s::r(%d, &[<>])" % (gname, act[1])
+    if act[0] == "usereach":
+        # one `<>` per anonymous selection: each is replaced by the corresponding selected symbol, in order
+        return "crate::rec_%s::r(%d, &[%s])" % (gname, act[1], ", ".join(["<>"] * act[2]))
     if act[0] == "mutinc":
         return "{ %s = %s.wrapping_add(1); crate::rec_%s::r(%d, &[%s]) }" % (act[2], act[2], gname, act[1], act[2])
     raise ValueError(act)
@@ -88,6 +91,7 @@ def action_grammars():
             AA(["n"]),                                                                 # default: token payload
             AA(["(", Sel(Nt("E")), ")"]),                                              # default: the single selected symbol
             AA(["(", N("v", Nt("E"), True), ",", ")"], ("mutinc", 4, "v")),
+            AA(["(", Sel(Nt("E")), ",", Sel(Nt("E")), ")"], ("usereach", 7, 2)),         # two `<>`: first and second selected symbol
             AA(["~", Named("(a, b)", Nt("P")), ")"], UA(5, "b", "a")),               # tuple pattern
         ], ty="u8"),
         NT("P", [AA([Sel(Nt("F")), ",", Sel(Nt("F"))])], ty="(u8, u8)"),             # default: tuple of the selected
@@ -390,7 +394,7 @@ def expand_alt_node(g, defs, nt, alt):
             kinds = [a[0] if isinstance(a, tuple) else "u8" for a in act[2]]
             node = Node(act[0], act[1], args, ty)
             node.argkinds = kinds
-        elif act[0] == "userall":
+        elif act[0] in ("userall", "usereach"):
             node = Node("user", act[1], list(selected), ty)
         elif act[0] == "mutinc":
             node = Node("user", act[1], [("inc", names[act[2]])], ty)
